@@ -65,6 +65,25 @@ impl Scenario {
     }
 }
 
+/// The value type of the notified state.  Values are identified by the number of the `set` that produced
+/// them (`seq`, which is what subscribers receive); what the type itself calls equal is the `tag`, and tags
+/// repeat: setting a value that equals the previous one (or the initial one) is still a `set`.
+#[derive(Debug, Clone)]
+pub struct Val {
+    pub tag: u32,
+    pub seq: u32,
+}
+impl PartialEq for Val {
+    fn eq(&self, o: &Val) -> bool {
+        self.tag == o.tag
+    }
+}
+impl From<Val> for u32 {
+    fn from(v: Val) -> u32 {
+        v.seq
+    }
+}
+
 fn poll_stream<S: Stream<Item = zlink_core::Reply<u32>> + Unpin>(s: &mut S) -> Value {
     let mut cx = Context::from_waker(Waker::noop());
     match Pin::new(s).poll_next(&mut cx) {
@@ -103,8 +122,8 @@ pub fn run(sc: &Scenario, stats: &mut Stats) {
     ev(json!({"ev":"reset","sid":sc.sid}));
     let mut version: u32 = 0;
     let mut drops = 0u32;
-    let mut tk_states: Vec<tk::State<u32, u32>> = vec![tk::State::new(0)];
-    let mut sm_states: Vec<sm::State<u32, u32>> = vec![sm::State::new(0)];
+    let mut tk_states: Vec<tk::State<Val, u32>> = vec![tk::State::new(Val { tag: 0, seq: 0 })];
+    let mut sm_states: Vec<sm::State<Val, u32>> = vec![sm::State::new(Val { tag: 0, seq: 0 })];
     let mut tk_subs: Vec<Option<tk::Stream<u32>>> = (0..NSUBS).map(|_| None).collect();
     let mut sm_subs: Vec<Option<sm::Stream<u32>>> = (0..NSUBS).map(|_| None).collect();
     let mut tk_once: Option<tk::Once<u32>> = None;
@@ -121,12 +140,16 @@ pub fn run(sc: &Scenario, stats: &mut Stats) {
                 }
                 version += 1;
                 let v = version;
+                // tags come in equal pairs (and the first one equals the initial value); the handle used rotates
+                // over the clones, each of which remembers the value it was last given itself
+                let val = Val { tag: (v / 2) % 3, seq: v };
+                let h = v as usize % tk_states.len();
                 let t = guarded(|| {
-                    crate::util::block_on(tk_states[0].set(v));
+                    crate::util::block_on(tk_states[h].set(val.clone()));
                     ok.clone()
                 });
                 let s = guarded(|| {
-                    crate::util::block_on(sm_states[0].set(v));
+                    crate::util::block_on(sm_states[h].set(val.clone()));
                     ok.clone()
                 });
                 ev(json!({"ev":"set","v":v,"tokio":t,"smol":s}));
